@@ -259,6 +259,7 @@ pub async fn run() {
     sys.recovery.recreate_missing_state = get("recreate_missing", "1") == "1";
     let enc = get("enc", "-");
     if enc != "-" {
+        ENCRYPTED.store(true, Ordering::Relaxed);
         sys.encryption.enabled = true;
         sys.encryption.key = enc;
     }
